@@ -7,7 +7,7 @@
 From Coq Require Import List ZArith Bool.
 From Piko Require Import NodeLoss.Backoff.
 Import ListNotations.
-Open Scope Z_scope.
+Local Open Scope Z_scope.
 
 Inductive bcase :=
 | BRaw (retries minb maxb : Z) (obs : list (Z * bool))       (* backoff.New(retries,min,max); obs = (wait, ok) per call *)
